@@ -901,14 +901,17 @@ def fam_sentinel(tier):
                           | ({(54600000 + d) & mx for d in (-600000, -1, 0, 1)} if w == 27 else set())
                           | ({(90 * 600000 + d) & mx for d in (0, 1, 599999)} if w == 27 else set()))
         vals = sorted(set(vals) | cross_constants(w))
-        nbits = 160 if t == 15 else shape_of(t)[1]
-        for v in vals:
-            buf = enc.BitBuf(nbits, rnd=rnd)
-            buf.put(0, 6, t)
-            buf.put(off, w, v)
-            emit(sc, buf, "D")
-            if v in (na, na + 1):
-                emit(sc, buf, "L")
+        forms = [f15 for f15 in (88, 112, 160) if off + w <= f15] if t == 15 else [shape_of(t)[1]]
+        for nbits in forms:
+            for v in vals:
+                if t == 15 and nbits != 160 and v % 7 and v not in (0, 1, 4095):
+                    continue
+                buf = enc.BitBuf(nbits, rnd=rnd)
+                buf.put(0, 6, t)
+                buf.put(off, w, v)
+                emit(sc, buf, "D")
+                if v in (na, na + 1):
+                    emit(sc, buf, "L")
     sc.unit()
     for r in range(256):
         sc.rot(r)
@@ -986,6 +989,42 @@ def text_base(tb, rnd, t, nchars=None):
     return buf
 
 
+def fam_decode_history(tier, only_types=None):
+    """The decoder has no memory: a message decodes the same after any number of messages that were rejected
+    part-way (truncated inside a field) or decoded, as on first use."""
+    tb = T.tables()
+    rnd = rng("dechist")
+    sc = Scenario()
+    thorough = tier == "thorough"
+    for s in shapes():
+        if only_types and s[0] not in only_types:
+            continue
+        sc.unit()
+        good = rand_message(tb, rnd, shape=s)
+        if s[0] in (5, 19, 21, 24, 12, 14):       # give the text fields visible characters
+            itu = tb["itu"][enc.layout_key(s[0])]
+            for nm in ("vessel_name", "name", "callsign", "destination", "vendor_id", "text"):
+                if nm in itu and itu[nm][0] + 6 <= s[1]:
+                    o, w = itu[nm]
+                    nch = (w or (s[1] - o)) // 6
+                    for i in range(min(nch, (s[1] - o) // 6)):
+                        good.put(o + 6 * i, 6, rnd.randrange(1, 27))
+        emit(sc, good, "D")
+        full = good.bytes()
+        cuts = range(1, len(full)) if thorough else sorted(set(rnd.sample(range(1, len(full)), min(12, len(full) - 1))))
+        for cut in cuts:
+            other = rand_message(tb, rnd, shape=rnd.choice([x for x in shapes() if x[0] == s[0]])).bytes()
+            sc.decode(other[:cut])          # rejected somewhere inside
+            emit(sc, good, "D")             # must decode exactly as before
+        emit(sc, good, "L")
+        pay, fill = nmea.armor(full, good.n)
+        for cut in (len(pay) // 3, len(pay) // 2, len(pay) - 2):
+            if cut > 0:
+                sc.line(nmea.line(payload=pay[:cut], fill=0), 0, 1)
+                emit(sc, good, "L")
+    return sc
+
+
 def fam_text(tier):
     """C13: each of the 64 characters at each position; padding patterns at both ends; all-padding;
     interior '@' and spaces; maximal lengths; every field's own alignment."""
@@ -1029,6 +1068,20 @@ def fam_text(tier):
                     put_text(codes)
             for allc in (0, 32, 1, 63, 31, 33):
                 put_text([allc] * nch)
+            if t == 21:
+                # a full 20-character name followed by a name extension (272 + 6..84 bits): the name is its own 120 bits
+                for ext in (1, 2, 5, 14):
+                    for rep in range(6 if thorough else 2):
+                        nb = 272 + 6 * ext
+                        nb = (nb + 7) // 8 * 8
+                        buf = enc.BitBuf(nb, rnd=rnd)
+                        buf.put(0, 6, 21)
+                        for i in range(20):
+                            buf.put(off + 6 * i, 6, rnd.randrange(1, 27))
+                        for i in range((nb - 272) // 6):
+                            buf.put(272 + 6 * i, 6, rnd.randrange(1, 27))
+                        emit(sc, buf, "D")
+                        emit(sc, buf, "L")
             for _ in range(40 if thorough else 8):
                 codes = [rnd.choice([0, 32, 32, 0, rnd.randrange(64)]) for _ in range(nch)]
                 b2 = put_text(codes)
@@ -1044,6 +1097,7 @@ def fam_varlen(tier):
     sc = Scenario()
     thorough = tier == "thorough"
     sup = tb["supported"]
+    twin = [0]
     for t in sup:
         sc.unit()
         legal = tb["legalbytes"][str(t)] if isinstance(tb["legalbytes"], dict) else tb["legalbytes"][t]
@@ -1073,7 +1127,19 @@ def fam_varlen(tier):
                 for fill in range(6):
                     pay = bytearray(rand_armor(rnd, nch + dn))
                     pay[0] = nmea.ARMOR[t]
-                    sc.line(nmea.line(payload=bytes(pay), fill=fill), 0, 1)
+                    if fill and len(pay) > 1:
+                        # the same payload with the fill bits zero and with the fill bits set: padding is read as zero
+                        twin[0] += 1
+                        v = nmea.ARMOR.index(pay[-1])
+                        z = bytearray(pay)
+                        z[-1] = nmea.ARMOR[(v >> fill) << fill]
+                        o = bytearray(pay)
+                        o[-1] = nmea.ARMOR[v | ((1 << fill) - 1)]
+                        sc.line(nmea.line(payload=bytes(z), fill=fill), 0, 1, tag="A:v%d" % twin[0])
+                        sc.line(nmea.line(payload=bytes(o), fill=fill), 0, 1,
+                                tag="B:v%d:C14:msgonly:fill-bits-are-padding" % twin[0])
+                    else:
+                        sc.line(nmea.line(payload=bytes(pay), fill=fill), 0, 1)
     return sc
 
 
@@ -1133,6 +1199,21 @@ def fam_binary(tier):
             sid = rnd.choice([None, 1, 4, 9])
             for k in range(1, parts + 1):
                 sc.line(nmea.line(n=parts, k=k, sid=sid, payload=pay[cuts[k - 1]:cuts[k]], fill=fill if k == parts else 0), 0, 1)
+    # repetitive application data split so that a fragment equals the characters just before it
+    for (t, hdr) in ((6, 88), (8, 56), (17, 120)):
+        for fillbyte in (0xFF, 0x00, 0xAA):
+            for nb in (30, 90):
+                sc.unit()
+                sc.new(0)
+                d = bytearray(rnd.randrange(256) for _ in range(hdr // 8)) + bytes([fillbyte]) * nb
+                d[0] = (t << 2) | (d[0] & 3)
+                pay, fill = nmea.armor(bytes(d))
+                for cutset in ([len(pay) - 1], [len(pay) - 3, len(pay) - 2], [len(pay) // 2, len(pay) // 2 + 4, len(pay) // 2 + 8],
+                               [hdr // 6 + 3, hdr // 6 + 4, hdr // 6 + 5, hdr // 6 + 6]):
+                    cuts = [0] + cutset + [len(pay)]
+                    parts = len(cuts) - 1
+                    for k in range(1, parts + 1):
+                        sc.line(nmea.line(n=parts, k=k, sid=2, payload=pay[cuts[k - 1]:cuts[k]], fill=fill if k == parts else 0), 0, 1)
     for i in range(20000 if thorough else 300):
         if i % 500 == 0:
             sc.unit()
